@@ -314,7 +314,7 @@ def blocks_then_lines(chk, exe, gen_args, name, relevant=None):
 def c06(chk):
     chk.extract(("messageTypes", "timeCodeTypes"))
     chk.proofs(["Midi.Props.C06"])
-    chk.translated(['TShort'])
+    chk.translated(['TShort', 'TUtil'])
     exe = chk.cargo_build("std")
     if exe is None:
         return
